@@ -45,7 +45,7 @@ BobReact(st, frame, cond, accept) ==
 AliceReact(frame, cond) ==
   IF frame \in Undecodable \/ frame \in Inits THEN {"err"}
   ELSE IF frame = "Eof" THEN {"ok"}
-  ELSE IF frame = "Abort" THEN {"abort"}
+  ELSE IF frame = "Abort" THEN {"abort", "err"}     \* a reported error either way (which variant: not C10's business)
   ELSE IF cond # "ok" THEN {"err"}
   ELSE IF frame \in Malformed THEN {"err", "reply", "ok"} ELSE {"reply", "ok"}
 AliceStart(cond) == IF cond = "ok" THEN {"init"} ELSE {"err"}
